@@ -32,6 +32,13 @@ class Child:
     tags: list[int] = field(default_factory=list, metadata={"type": "Attribute", "tokens": True})
 
 @dataclass
+class NilC:
+    class Meta:
+        nillable = True
+    w: Optional[str] = field(default=None, metadata={"type": "Element"})
+    a: Optional[int] = field(default=None, metadata={"type": "Attribute"})
+
+@dataclass
 class Root:
     class Meta:
         name = "root"
@@ -53,6 +60,9 @@ class Root:
     nb: Optional[bool] = field(default=None, metadata={"type": "Element", "nillable": True})
     nl: list[str] = field(default_factory=list, metadata={"type": "Element", "nillable": True})
     nn: Optional[str] = field(default=None, metadata={"type": "Element", "nillable": True})
+    nc: Optional[Child] = field(default=None, metadata={"type": "Element", "nillable": True})
+    nd: Optional[Child] = field(default=None, metadata={"type": "Element", "nillable": True})
+    ne: list[NilC] = field(default_factory=list, metadata={"type": "Element"})
 '''
 INST_RICH = {"__cls__": "Root", "fields": {
     "ident": {"__p__": "int", "v": -42}, "kind": {"__p__": "str", "v": "a b<&\u00e9"},
@@ -69,7 +79,10 @@ INST_RICH = {"__cls__": "Root", "fields": {
     "sc": [{"__cls__": "Child", "fields": {"value": {"__p__": "int", "v": 9}, "flag": None, "tags": []}},
            {"__cls__": "Child", "fields": {"value": None, "flag": {"__p__": "bool", "v": True}, "tags": []}}],
     "nz": {"__p__": "int", "v": 0}, "nb": {"__p__": "bool", "v": False},
-    "nl": [{"__p__": "str", "v": "a"}, {"__p__": "str", "v": "b c"}], "nn": None}}
+    "nl": [{"__p__": "str", "v": "a"}, {"__p__": "str", "v": "b c"}], "nn": None,
+    "nc": {"__cls__": "Child", "fields": {"value": {"__p__": "int", "v": 0}, "flag": {"__p__": "bool", "v": True}, "tags": []}},
+    "nd": None,
+    "ne": [{"__cls__": "NilC", "fields": {"w": {"__p__": "str", "v": "x"}, "a": {"__p__": "int", "v": 3}}}]}}
 WITNESS_NIL = G.HEADER + '''
 @dataclass
 class B:
@@ -206,7 +219,8 @@ Import ListNotations.
    token lists, nested simple-content class, a wrapped list of it, an empty wrapped list, a sequence
    group of an int list, an optional str and a class list, nillable int / bool fields holding the falsy
    values 0 / False, a nillable str list and a nillable str field holding None, written
-   <nn xsi:nil="true"/>), class namespace urn:a, Meta.name *)
+   <nn xsi:nil="true"/>, a nillable field of class type holding an instance with content and another one
+   holding None, a list of instances with content of a nillable class), class namespace urn:a, Meta.name *)
 '''
     txt += D("u_rich", "universe", rich["universe"])
     txt += D("root_rich", "cls", rich["root"])
@@ -339,6 +353,7 @@ GUARD_PREDS = {
     "in_guard_recursive": "fun k => negb (in_guard_w k && uses_recursion (rc_universe k))",
     "in_guard_xsi": "fun k => negb (in_guard_w k && uses_xsi_type k)",
     "in_guard_nillable": "fun k => negb (in_guard_w k && uses_nillable (rc_universe k))",
+    "in_guard_nillable_class": "fun k => negb (in_guard_w k && uses_nillable_class (rc_universe k))",
     "guard-oracle": "oracle_in_guard",
     "corr-generate-in-guard": "fun k => negb (in_guard_w k) || gen_agree k",
     "corr-parse-in-guard": "fun k => negb (in_guard_w k) || parse_agree k",
@@ -388,6 +403,7 @@ def guard_layer(ck, jobs, stats):
     stats["guard_inside_with_recursive_class"] = len(bad["in_guard_recursive"])
     stats["guard_inside_with_subclass_instance"] = len(bad["in_guard_xsi"])
     stats["guard_inside_with_nillable_field"] = len(bad["in_guard_nillable"])
+    stats["guard_inside_with_nillable_class"] = len(bad["in_guard_nillable_class"])
     stats["guard_inside_share"] = round(len(inside) / max(1, len(terms)), 3)
     stats["guard_skipped"] = skipped
     for cls in ("guard-oracle", "corr-generate-in-guard", "corr-parse-in-guard", "guard-theorem-instance",
@@ -856,9 +872,10 @@ def run(ck: Check):
     ck.cov["samples"] = ck.cov["samples"] + [{"case": jobs[-1]["cases"][0], "instance": jobs[-1]["instances"][0]}]
     ck.cov["proved_slice"] = ("C01_roundtrip_S4: Attribute / Element / Text fields of primitive, enum or exact class type, optional, default, list, "
                               "tokens, list of token lists, nested classes (recursive class graphs, subclass instances with xsi:type), wrappers, sequence groups, "
-                              "QName values, nillable simple-typed fields holding non-empty values, namespaces; infoset "
+                              "QName values, nillable fields (simple type: None or non-empty values; class type: None or instances with content), nillable classes "
+                              "(instances with content), namespaces; infoset "
                               "level, every reading (attribute order, prefix maps, indentation) and, through C03, the printed document; everything else "
-                              "(wrapped lists inside a sequence group, None / empty text / class instances in nillable fields, wildcards, compound fields, unions, below the "
+                              "(wrapped lists inside a sequence group, empty texts and instances without content in nillable positions, wildcards, compound fields, unions, below the "
                               "infoset) is covered by correspondence + oracle only")
     return ck.finish(obligations=obligations, discharged=discharged, checker_cmd="coqc", trusted_base=TRUSTED_COMMON,
                      assumptions=axioms)
